@@ -228,3 +228,124 @@ def sibling_nesting_rules(tab: Table) -> Dict[str, list]:
                 if ka == "PC" and kb == "PC" and a[2] != b[2] and la is not (a[2] < b[2]):
                     bad["PC/PC"].append((a, b))
     return bad
+
+
+# ------------------------------------------------------------------------------------------ bounded tree semantics
+def laminar_families(max_events: int = 3, grid: int = 4):
+    """all properly nested (laminar) families of up to max_events closed spans [s, e] on the grid 0..grid, zero durations allowed.
+    Two spans are compatible iff one contains the other or their interiors are disjoint (touching allowed)."""
+    spans = [(s, e) for s in range(grid + 1) for e in range(s, grid + 1)]
+
+    def compatible(a, b):
+        (s1, e1), (s2, e2) = a, b
+        if s1 <= s2 and e2 <= e1:
+            return True
+        if s2 <= s1 and e1 <= e2:
+            return True
+        return e1 <= s2 or e2 <= s1
+
+    def rec(cur, start):
+        if cur:
+            yield tuple(cur)
+        if len(cur) == max_events:
+            return
+        for i in range(start, len(spans)):
+            if all(compatible(spans[i], c) for c in cur):
+                yield from rec(cur + [spans[i]], i)     # i (not i+1): identical spans allowed
+
+    yield from rec([], 0)
+
+
+def oracle_parents(fam):
+    """innermost enclosing event for POSITIVE-duration events (identical spans nest in file order = id order); None = root"""
+    out = {}
+    for i, (s, e) in enumerate(fam):
+        if e == s:
+            continue
+        best = None
+        for j, (s2, e2) in enumerate(fam):
+            if j == i or e2 == s2:
+                continue
+            contains = s2 <= s and e <= e2 and ((s2, e2) != (s, e) or j < i)
+            if contains:
+                if best is None:
+                    best = j
+                else:
+                    sb, eb = fam[best]
+                    inner = (sb <= s2 and e2 <= eb) and ((sb, eb) != (s2, e2) or best < j)
+                    if inner:
+                        best = j
+        out[i] = best
+    return out
+
+
+def simulate(tab: Table, fam, ids):
+    """sort the endpoints with the extracted comparator table (functools.cmp_to_key + list.sort: trusted) and run the abstract push/pop scan"""
+    import functools
+    eps = []
+    for i, (s, e) in enumerate(fam):
+        eps.append((ids[i], s, e - s, "O"))
+        eps.append((ids[i], e, e - s, "C"))
+
+    def c(p, q):
+        r = tab.cmp(p, q)
+        if r in ("TOP", "RAISE"):
+            raise T.Unknown(r)
+        return -1 if r == "LT" else (0 if r == "EQ" else 1)
+    order = sorted(eps, key=functools.cmp_to_key(c))
+    stack, parent, depth = [], {}, {}
+    for idx, t, d, k in order:
+        if k == "O":
+            parent[idx] = stack[-1] if stack else None
+            depth[idx] = len(stack)
+            stack.append(idx)
+        elif stack:
+            stack.pop()
+    return parent, depth
+
+
+def check_tree_semantics(tab: Table, chk, rule: str, where: str, key_prefix: str, max_events: int = 3, grid: int = 3) -> Dict[str, Any]:
+    """bounded exhaustive check of the paper argument: comparator table + scan = innermost-enclosing-parent tree,
+    on every laminar family within the bound and every assignment of ids (file positions)."""
+    import itertools
+    n_fam = n_runs = 0
+    bad_known, bad_other, zero_bad = [], [], []
+    for fam in laminar_families(max_events, grid):
+        n_fam += 1
+        exp = oracle_parents(fam)
+        for perm in itertools.permutations(range(len(fam))):
+            ids = [p + 1 for p in perm]               # event i has file position ids[i]
+            # identical spans nest in FILE order: recompute the oracle with ids as the order
+            expo = {}
+            order_fam = sorted(range(len(fam)), key=lambda i: ids[i])
+            fam_sorted = [fam[i] for i in order_fam]
+            e2 = oracle_parents(fam_sorted)
+            for pos, par in e2.items():
+                expo[ids[order_fam[pos]]] = None if par is None else ids[order_fam[par]]
+            n_runs += 1
+            try:
+                parent, depth = simulate(tab, fam, ids)
+            except T.Unknown:
+                continue
+            wrong = {k: (parent.get(k), v) for k, v in expo.items() if parent.get(k) != v}
+            # known class: a zero-duration event sits at an instant where one positive span closes and another opens
+            known = any(s == e and any(e1 == s and e1 > s1 for (s1, e1) in fam) and any(s2 == s and e2_ > s2 for (s2, e2_) in fam) for (s, e) in fam)
+            if wrong:
+                (bad_known if known else bad_other).append((fam, ids, wrong))
+            # zero-duration events: placed beneath an event whose closed span contains the instant (or the root)
+            for i, (s, e) in enumerate(fam):
+                if s == e:
+                    p = parent.get(ids[i])
+                    if p is not None:
+                        ps, pe = fam[ids.index(p)]
+                        if not (ps <= s <= pe):
+                            (bad_known if known else zero_bad).append((fam, ids, ids[i], p))
+    chk.ob(rule, f"{tab.name}: bounded tree semantics - sorted endpoints + push/pop scan give every positive-duration event its innermost enclosing parent "
+                 f"({n_fam} laminar families of <= {max_events} spans on a grid of {grid + 1} instants x all id assignments = {n_runs} cases)", not bad_other, where,
+           found=[str(b)[:200] for b in bad_other[:3]], accepted="parent == innermost enclosing span (identical spans in file order, touching spans siblings)",
+           why="exhaustive within the bound; the comparator is used only through its extracted decision table")
+    if bad_known:
+        chk.ob(rule.replace("tree-semantics", "strict-weak-order") if False else "C03.O3-strict-weak-order", f"{tab.name}: mis-parented positive events in the bounded enumeration belong to the known cyclic class", False, where,
+               found={"cases": len(bad_known), "example": str(bad_known[0])[:200]}, accepted="none", key=f"{key_prefix}|cycle|ZERO,POS_CLOSE,POS_OPEN")
+    chk.ob(rule, f"{tab.name}: a zero-duration event is placed beneath an event whose closed span contains its instant", not zero_bad, where, found=[str(z)[:160] for z in zero_bad[:3]], accepted="contained or at the root")
+    return {"families": n_fam, "cases": n_runs, "known_class_cases": len(bad_known), "other": len(bad_other)}
